@@ -107,6 +107,63 @@ static spif_cmp_t va_comp(spif_obj_t a, spif_obj_t b)
 }
 #endif
 
+/* ---- memmove / memset on slot arrays ---------------------------------------
+ * cbmc's models copy / fill a byte range of SYMBOLIC length; on arrays of 8-byte pointers no
+ * back end finishes (probed on remove_at: z3, cvc5 > 300 s, minisat out of memory).  Like env.h's
+ * realloc these are OVER-APPROXIMATIONS of the libc functions for arrays of VERIF_REALLOC_ELEM_T:
+ * argument validity is asserted (readable source, writable destination, element alignment), then
+ * the WHOLE destination object gets arbitrary contents, except for the slots that the ghost index
+ * vg_k designates:
+ *   (a) the element at source slot vg_k, if it is inside the moved range, arrives at its new slot;
+ *   (b) destination slot vg_k, if inside the range, receives the element the real call puts there;
+ *   (c) destination slot vg_k, if outside the range, keeps its value.
+ * The real functions preserve/establish that for every slot; vg_k is arbitrary, so postconditions
+ * stated through vg_k are the universally quantified ones. */
+#ifdef VERIF_REALLOC_ELEM_T
+void *memmove(void *dst, const void *src, size_t n)
+{
+    typedef VERIF_REALLOC_ELEM_T va_T;
+    if (n == 0) return dst;
+    __CPROVER_assert(__CPROVER_r_ok(src, n), "memmove: source readable");
+    __CPROVER_assert(__CPROVER_w_ok(dst, n), "memmove: destination writable");
+    __CPROVER_assert(n % sizeof(va_T) == 0 && __CPROVER_POINTER_OFFSET(src) % sizeof(va_T) == 0 &&
+                     __CPROVER_POINTER_OFFSET(dst) % sizeof(va_T) == 0, "memmove: whole aligned slots");
+    size_t so = __CPROVER_POINTER_OFFSET(src) / sizeof(va_T), d_o = __CPROVER_POINTER_OFFSET(dst) / sizeof(va_T);
+    size_t ne = n / sizeof(va_T), dn = __CPROVER_OBJECT_SIZE(dst) / sizeof(va_T);
+    va_T *sb = (va_T *) src - so, *db = (va_T *) dst - d_o;
+    va_T a_val, b_val, c_val;
+    _Bool a_in = (vg_k >= so && vg_k < so + ne);
+    _Bool b_in = (vg_k >= d_o && vg_k < d_o + ne);
+    _Bool c_in = (!b_in && vg_k < dn);
+    if (a_in) a_val = sb[vg_k];
+    if (b_in) b_val = sb[vg_k - d_o + so];
+    if (c_in) c_val = db[vg_k];
+    __CPROVER_havoc_object(db);
+    if (a_in) db[vg_k - so + d_o] = a_val;
+    if (b_in) db[vg_k] = b_val;
+    if (c_in) db[vg_k] = c_val;
+    return dst;
+}
+void *memset(void *dst, int c, size_t n)
+{
+    typedef VERIF_REALLOC_ELEM_T va_T;
+    if (n == 0) return dst;
+    __CPROVER_assert(__CPROVER_w_ok(dst, n), "memset: destination writable");
+    __CPROVER_assert(n % sizeof(va_T) == 0 && __CPROVER_POINTER_OFFSET(dst) % sizeof(va_T) == 0, "memset: whole aligned slots");
+    size_t d_o = __CPROVER_POINTER_OFFSET(dst) / sizeof(va_T);
+    size_t ne = n / sizeof(va_T), dn = __CPROVER_OBJECT_SIZE(dst) / sizeof(va_T);
+    va_T *db = (va_T *) dst - d_o;
+    va_T c_val, z_val;
+    _Bool b_in = (vg_k >= d_o && vg_k < d_o + ne);
+    _Bool c_in = (!b_in && vg_k < dn);
+    if (c_in) c_val = db[vg_k];
+    __CPROVER_havoc_object(db);
+    if (b_in && c == 0) db[vg_k] = (va_T) 0;
+    if (c_in) db[vg_k] = c_val;
+    return dst;
+}
+#endif
+
 #ifndef VA_NO_REBIND
 # undef SPIF_OBJ_COMP
 # define SPIF_OBJ_COMP(o1, o2) va_comp((spif_obj_t) (o1), (spif_obj_t) (o2))
